@@ -72,6 +72,8 @@ def dispatch(ctx):
             ctx.ob("R-DISPATCH", f"space={space!r} {regime}: exactly the {want} route runs", calls == [want], f"routes taken: {calls}; space_ = {sp!r}", site, f"space={space} {regime}")
             ctx.ob("R-DISPATCH", f"space={space!r} {regime}: space_ records the route", sp is not None and sp.has_const and sp.const == want, f"space_ = {sp!r}", site, f"space={space} {regime}", nontrivial=False)
 
+    pc.solver_policy(ctx, "R-DISPATCH")
+
 
 def shapes(ctx):
     P = ctx.P
